@@ -3,9 +3,13 @@ package main
 import (
 	"encoding/json"
 	"fmt"
+	"go/ast"
+	"go/parser"
+	"go/token"
 	"os"
 	"os/exec"
 	"path/filepath"
+	"regexp"
 	"sort"
 	"strings"
 	"sync"
@@ -18,11 +22,16 @@ import (
 type mutant struct {
 	ID       string `json:"id"`
 	Property string `json:"property"`
-	File     string `json:"file"`    // repo-relative
-	Search   string `json:"search"`  // must occur exactly once
+	File     string `json:"file"`   // repo-relative
+	Search   string `json:"search"` // must occur exactly once
 	Replace  string `json:"replace"`
 	Expect   string `json:"expect_rule"` // rule id prefix that must report a violation
 	Note     string `json:"note"`
+	// behaviour-preserving variants (selftest/benign): the check must stay silent
+	Func      string            `json:"func"`       // text that starts the function declaration, e.g. "func (t *Trie) delete("
+	Rename    map[string]string `json:"rename"`     // local identifiers renamed inside that function
+	RenameAll bool              `json:"rename_all"` // rename every local variable, parameter and named result of the function(s) named in Funcs
+	Funcs     []string          `json:"funcs"`      // function / method names (rename_all)
 }
 
 type mutantResult struct {
@@ -120,6 +129,147 @@ func runMutants(c *Ctx) {
 	}
 }
 
+// applyBenign rewrites src: renames identifiers inside one function and/or applies a search/replace.
+func applyBenign(src string, m mutant) (string, string) {
+	if m.RenameAll {
+		out, err := renameAllLocals(src, m.Funcs)
+		if err != nil {
+			return "", err.Error()
+		}
+		src = out
+	}
+	if m.Func != "" {
+		a := strings.Index(src, m.Func)
+		if a < 0 || strings.Count(src, m.Func) != 1 {
+			return "", "function anchor not unique"
+		}
+		e := strings.Index(src[a:], "\n}\n")
+		if e < 0 {
+			return "", "function end not found"
+		}
+		body := src[a : a+e]
+		keys := make([]string, 0, len(m.Rename))
+		for k := range m.Rename {
+			keys = append(keys, k)
+		}
+		sort.Strings(keys)
+		for _, k := range keys {
+			re := regexp.MustCompile(`(^|[^.\w])` + regexp.QuoteMeta(k) + `\b`)
+			if !re.MatchString(body) {
+				return "", "identifier " + k + " not found"
+			}
+			body = re.ReplaceAllString(body, "${1}"+m.Rename[k])
+		}
+		src = src[:a] + body + src[a+e:]
+	}
+	if m.Search != "" {
+		if strings.Count(src, m.Search) != 1 {
+			return "", "search string not unique"
+		}
+		src = strings.Replace(src, m.Search, m.Replace, 1)
+	}
+	return src, ""
+}
+
+// runBenign: behaviour-preserving source variants (renamed locals, reordered independent statements, extracted
+// constants) on which the check must stay silent. Informational, like the mutants.
+func runBenign(c *Ctx) {
+	files, _ := filepath.Glob(filepath.Join(c.Root, "selftest", "benign", "*.json"))
+	sort.Strings(files)
+	var ms []mutant
+	for _, f := range files {
+		b, err := os.ReadFile(f)
+		if err != nil {
+			continue
+		}
+		var all []mutant
+		if err := json.Unmarshal(b, &all); err != nil {
+			fmt.Fprintf(os.Stderr, "benign file %s: %v\n", f, err)
+			continue
+		}
+		for _, m := range all {
+			if m.Property == c.Prop {
+				ms = append(ms, m)
+			}
+		}
+	}
+	if len(ms) == 0 {
+		return
+	}
+	self, err := os.Executable()
+	if err != nil {
+		return
+	}
+	tmp, err := os.MkdirTemp("", "verif-benign-")
+	if err != nil {
+		return
+	}
+	defer os.RemoveAll(tmp)
+	results := make([]mutantResult, len(ms))
+	sem := make(chan struct{}, 6)
+	var wg sync.WaitGroup
+	for i, m := range ms {
+		wg.Add(1)
+		go func(i int, m mutant) {
+			defer wg.Done()
+			sem <- struct{}{}
+			defer func() { <-sem }()
+			res := mutantResult{ID: m.ID}
+			abs := filepath.Join(c.Repo, m.File)
+			src, err := os.ReadFile(abs)
+			if err != nil {
+				res.Outcome, res.Detail = "skipped", "file missing"
+				results[i] = res
+				return
+			}
+			out, why := applyBenign(string(src), m)
+			if why != "" {
+				res.Outcome, res.Detail = "skipped", why
+				results[i] = res
+				return
+			}
+			mf := filepath.Join(tmp, m.ID+".go")
+			os.WriteFile(mf, []byte(out), 0o644)
+			ov := filepath.Join(tmp, m.ID+".overlay.json")
+			ob, _ := json.Marshal(map[string]string{abs: mf})
+			os.WriteFile(ov, ob, 0o644)
+			cmd := exec.Command(self, c.Prop, "quick")
+			cmd.Env = append(os.Environ(), "VERIF_OVERLAY="+ov, "VERIF_NO_EVIDENCE=1", "VERIF_NO_MUTANTS=1", "VERIF_REPLAY_DIR="+tmp)
+			o, _ := cmd.CombinedOutput()
+			if strings.Contains(string(o), "VIOLATION property=") {
+				res.Outcome = "false-alarm"
+				for _, l := range strings.Split(string(o), "\n") {
+					t := strings.TrimSpace(l)
+					if strings.HasPrefix(t, "VIOLATION C") || strings.HasPrefix(t, "UNDECIDED") {
+						res.Detail = t
+						break
+					}
+				}
+			} else {
+				res.Outcome = "silent"
+			}
+			results[i] = res
+		}(i, m)
+	}
+	wg.Wait()
+	silent := 0
+	for _, r := range results {
+		if r.Outcome == "silent" {
+			silent++
+		}
+	}
+	c.Extra["benign_variants"] = map[string]any{"total": len(ms), "silent": silent, "results": results,
+		"note": "behaviour-preserving source variants (renamed locals etc.) applied through the overlay; the check must stay silent; informational"}
+	if !c.Quiet {
+		fmt.Printf("%s self-validation: silent on %d/%d behaviour-preserving variants\n", c.Prop, silent, len(ms))
+		for _, r := range results {
+			if r.Outcome != "silent" {
+				fmt.Printf("   variant %s: %s %s\n", r.ID, r.Outcome, r.Detail)
+			}
+		}
+	}
+}
+
 func runOneMutant(c *Ctx, self, tmp string, m mutant) mutantResult {
 	res := mutantResult{ID: m.ID, Expect: m.Expect}
 	abs := filepath.Join(c.Repo, m.File)
@@ -157,4 +307,55 @@ func runOneMutant(c *Ctx, self, tmp string, m mutant) mutantResult {
 		}
 	}
 	return res
+}
+
+// renameAllLocals appends "_r" to every variable, parameter and named result declared inside the named functions
+// (all functions of the file if names is empty). Uses the parser's own scope resolution, so only identifiers bound to
+// a local object are touched; fields, methods, package-level names and labels are left alone.
+func renameAllLocals(src string, names []string) (string, error) {
+	fset := token.NewFileSet()
+	file, err := parser.ParseFile(fset, "x.go", src, parser.ParseComments)
+	if err != nil {
+		return "", err
+	}
+	want := map[string]bool{}
+	for _, n := range names {
+		want[n] = true
+	}
+	type edit struct{ off int }
+	var edits []int
+	found := 0
+	for _, d := range file.Decls {
+		fd, ok := d.(*ast.FuncDecl)
+		if !ok || fd.Body == nil || (len(want) > 0 && !want[fd.Name.Name]) {
+			continue
+		}
+		found++
+		ast.Inspect(fd, func(n ast.Node) bool {
+			id, ok := n.(*ast.Ident)
+			if !ok || id.Obj == nil || id.Obj.Kind != ast.Var || id.Name == "_" {
+				return true
+			}
+			dn, ok := id.Obj.Decl.(ast.Node)
+			if !ok || dn.Pos() < fd.Pos() || dn.End() > fd.End() {
+				return true
+			}
+			edits = append(edits, fset.Position(id.End()).Offset)
+			return true
+		})
+	}
+	if found == 0 {
+		return "", fmt.Errorf("no function matched %v", names)
+	}
+	sort.Sort(sort.Reverse(sort.IntSlice(edits)))
+	b := []byte(src)
+	last := -1
+	for _, off := range edits {
+		if off == last {
+			continue
+		}
+		last = off
+		b = append(b[:off], append([]byte("_r"), b[off:]...)...)
+	}
+	return string(b), nil
 }
